@@ -1,9 +1,9 @@
 package main
 
 import (
+	"golang.org/x/tools/go/ssa"
 	"regexp"
 	"strings"
-	"golang.org/x/tools/go/ssa"
 )
 
 const (
@@ -95,6 +95,7 @@ func rulesC07(c *Ctx) {
 		txw := union("tx.Set/save", CallsTo(fn, "tx.Set", bTX+".Set", ""), CallsTo(fn, "rootsMeta.save", "storage/mkvs/db/badger.(*rootsMetadata).save", ""))
 		c.NeverAfter(rule, fn, txw, commit, "no metadata write after the metadata commit")
 	}
+	c07FinalizedKept(c, "storage/mkvs/db/badger")
 	if fn := c.needFn(rule, "storage/mkvs/db/badger.(*badgerNodeDB).Finalize"); fn != nil {
 		flush := CallsTo(fn, "versionBatch.Flush", bWB+".Flush", "NewWriteBatchAt")
 		commit := CallsTo(fn, "tx.CommitAt", bTX+".CommitAt", "")
@@ -291,5 +292,72 @@ func rulesC07(c *Ctx) {
 			}
 		}
 		c.Check(hasReset, rule, fname(fn)+":defer batch.Reset", c.P.Pos(fn.Pos()), "batch is reset on every exit", "restoreChunk no longer resets its batch on exit (a failed chunk would keep its multipart lock / queued writes)")
+	}
+}
+
+// c07FinalizedKept: the clean-up of multipart restore leftovers deletes the
+// logged nodes only under a flag that is forced false when the multipart
+// version has already been finalized. Finalize makes "last finalized = V"
+// durable before it clears the multipart state; a crash in between must not
+// make the next start-up delete V's nodes (F9).
+func c07FinalizedKept(c *Ctx, pk string) {
+	const rule = "C07.recover"
+	fn := c.needFn(rule, pk+".(*badgerNodeDB).cleanMultipartLocked")
+	if fn == nil {
+		return
+	}
+	var dels []ssa.CallInstruction
+	for _, call := range callsIn(fn) {
+		if calleeName(call) != bWB+".Delete" {
+			continue
+		}
+		dels = append(dels, call)
+	}
+	if len(dels) == 0 {
+		c.Fail(rule, fname(fn)+":node deletions", c.P.Pos(fn.Pos()), "no node deletion found in the multipart clean-up")
+		return
+	}
+	finRe := regexp.MustCompile(`getLastFinalizedVersion\(param:d\.meta\)#0 >= phi\(\*param:d\.multipartVersion\|`)
+	for i, call := range dels {
+		ok := false
+		why := "not under a flag"
+		for _, h := range heldCondVals(call) {
+			phi, isPhi := h.Cond.(*ssa.Phi)
+			if !isPhi || !h.Pol {
+				continue
+			}
+			why = "the flag " + vstrShort(phi) + " is not forced false when the multipart version is already finalized"
+			for ei, e := range phi.Edges {
+				k, isK := e.(*ssa.Const)
+				if !isK || k.Value == nil || vstr(k) != "false" {
+					continue
+				}
+				pred := phi.Block().Preds[ei]
+				// the false comes from a block entered only when lastFinalized >= version held
+				var at ssa.Instruction
+				if len(pred.Instrs) > 0 {
+					at = pred.Instrs[len(pred.Instrs)-1]
+				}
+				held := false
+				if at != nil {
+					for _, hh := range heldCondVals(at) {
+						if matchEither(finRe, normCond(hh.Cond, hh.Pol)) {
+							held = true
+						}
+					}
+				}
+				if iff := lastIf(pred); iff != nil {
+					for si, sb := range pred.Succs {
+						if sb == phi.Block() && matchEither(finRe, normCond(iff.Cond, si == 0)) {
+							held = true
+						}
+					}
+				}
+				if held {
+					ok = true
+				}
+			}
+		}
+		c.Check(ok, rule, fname(fn)+":node deletion #"+itoa(i+1)+" only if the multipart version is not finalized", c.P.InstrPos(call), "logged nodes are deleted only under a flag that is false once the multipart version is finalized", "the multipart clean-up can delete the logged nodes although the multipart version is already finalized ("+why+"): a crash between Finalize's metadata commit and its multipart clean-up makes the next start-up delete the finalized version's nodes")
 	}
 }
